@@ -38,8 +38,13 @@ class MultichainPolicyIteration(Plans):
             atol=10**(-self.VALUE_DECIMAL_PRECISION),
             rtol=0
         )
+        if mdp.discount_rate < 1.0:
+            # the gain of a discounted problem is identically 0; ignore numerical noise in it
+            gain_max_actions = mdp.action_matrix.astype(bool)
+        # bias-optimal actions among the gain-optimal ones (never an empty set)
+        gain_max_action_bias = np.where(gain_max_actions, action_bias, float('-inf'))
         bias_max_actions = np.isclose(
-            action_bias, action_bias.max(-1, keepdims=True),
+            gain_max_action_bias, gain_max_action_bias.max(-1, keepdims=True),
             atol=10**(-self.VALUE_DECIMAL_PRECISION),
             rtol=0
         )
